@@ -108,9 +108,12 @@ def run_check(sid, tier, props=None):
     try:
         for p in props:
             t0 = time.time()
-            rc, out = sh("./check %s --tier %s" % (p, tier), cwd=VERIF, timeout=7200)
+            env = dict(ENV, VERIF_ONLY=",".join(meta.get("only", []))) if meta.get("only") else ENV
+            rc, out = sh("./check %s --tier %s" % (p, tier), cwd=VERIF, env=env, timeout=7200)
             lines = [l for l in out.splitlines() if l.startswith(("VIOLATION", "UNDECIDED", "KNOWN-FINDING")) or " tier=" in l]
             results[p] = {"exit": rc, "lines": lines[:12], "wall_s": round(time.time() - t0, 1)}
+            if meta.get("only"):
+                results[p]["subset_run"] = meta["only"]
     finally:
         sh("git -C %s checkout -- ." % REPO)
     return results
